@@ -17,6 +17,9 @@ def menu():
         class C19Inner(xo.HybridClass):
             _xofields = {"a": xo.Int64, "b": xo.Float64[:]}
 
+        class C19InnerS(xo.HybridClass):  # every field has a computable default
+            _xofields = {"a": xo.Int64, "v": xo.Float64[3]}
+
         _menu.update(
             sc=dict(ftype=xo.Int64, defaults=[("none", {}, None), ("default", dict(default=42), 42), ("factory", dict(default_factory=lambda: 7), 7)], values=[("zero", 0), ("diff", 5), ("near", 43), ("big", 2**40 + 42)]),
             # values *near* the default (same after a lossy cast, prefix / extension of it) are part of the alphabet:
@@ -28,6 +31,9 @@ def menu():
                     values=[("zero", [0.0, 0.0, 0.0]), ("diff", [4.0, 5.5, 6.0]), ("near", [1.5, 2.25, 3.0]), ("one-off", [1.0, 2.0, 3.5])]),
             da=dict(ftype=xo.Int32[:], defaults=[("none", {}, None), ("default", dict(default=[4, 5]), [4, 5]), ("factory", dict(default_factory=lambda: xo.Int32[:]([9])), [9])], values=[("empty", []), ("diff", [1, 2, 3]), ("zero", [0]), ("extends-default", [4, 5, 6]), ("prefix-of-default", [4])]),
             hy=dict(ftype=C19Inner, defaults=[("none", {}, None)], values=[("diff", dict(a=3, b=[1.0, 2.0])), ("empty", dict(a=0, b=[]))]),
+            # a nested class whose holder declares ITS OWN default for the nested object (two levels of defaults)
+            hs=dict(ftype=C19InnerS, defaults=[("none", {}, None), ("default", dict(default={"a": 5, "v": [1.0, 2.0, 3.0]}), dict(a=5, v=[1.0, 2.0, 3.0]))],
+                    values=[("diff", dict(a=3, v=[4.0, 5.0, 6.0])), ("inner-class-defaults", dict(a=0, v=[0.0, 0.0, 0.0])), ("half", dict(a=5, v=[0.0, 0.0, 0.0]))]),
         )
     return _menu
 
@@ -43,7 +49,7 @@ def describe(tier):
         "declared default is absent from the dictionary iff its value equals that default; (a') class families {base, derived class declaring the field again "
         "with another default, derived class inheriting the declaration} serialised in all 6 orders: each class elides exactly its own default and round-trips; then a class is defined from {'pre': Int64, **Base._xofields}: dictionaries made before still rebuild equal objects and the new class round-trips. (b) every reference-free type of the universe in which every "
         "array at any depth is one-dimensional x 3 value alphabets: T(x._to_json()) equals x.",
-        bounds=dict(field_kinds=["sc", "fl", "st", "sa", "da", "hy"], json_types=len(json_types(tier))),
+        bounds=dict(field_kinds=["sc", "fl", "st", "sa", "da", "hy", "hs"], json_types=len(json_types(tier))),
         assumptions=["N-D arrays are outside the property (documented as unsupported by _to_json)"],
         must_fire=["to_dict", "from_dict", "to_json"],
     )
@@ -76,7 +82,7 @@ def shards(tier, seed):
     common.quiet()
     fv = field_variants()
     out = [("hyb", i) for i in range(len(fv))]
-    out += [("family", i) for i in range(len(fv)) if fv[i][3] is not None]
+    out += [("family", i) for i in range(len(fv)) if fv[i][3] is not None and fv[i][0] not in ("hy", "hs")]
     out += [("json", c) for c in cons.chunk(json_types(tier), 16)]
     return out[seed % len(out):] + out[: seed % len(out)]
 
@@ -102,6 +108,9 @@ def read_hybrid(h, fields):
         if kind == "hy":
             v = dict(a=int(pv.a), b=np.asarray(pv.b).tolist())
             v2 = dict(a=int(xv.a), b=[float(xv.b[i]) for i in range(len(xv.b))])
+        elif kind == "hs":
+            v = dict(a=int(pv.a), v=np.asarray(pv.v).tolist())
+            v2 = dict(a=int(xv.a), v=[float(xv.v[i]) for i in range(3)])
         elif kind in ("sa", "da"):
             v = np.asarray(pv).tolist()
             v2 = [xv[i] for i in range(len(xv))]
@@ -136,7 +145,7 @@ def run_hybrid(first, tier, res):
             xof = {}
             for nm, (k, lab, kw, dv) in zip(names, combo):
                 ft = menu()[k]["ftype"]
-                xof[nm] = xo.Field(ft, **kw) if kw else ft
+                xof[nm] = xo.Field(getattr(ft, "_XoStruct", ft), **kw) if kw else ft
             ren = {names[0]: "py_" + names[0]} if rename else {}
             n += 1
             H = type("C19H%d_%d" % (first, n), (xo.HybridClass,), {"_xofields": xof, "_rename": ren})
@@ -170,8 +179,8 @@ def run_hybrid(first, tier, res):
                     continue
                 # default elision
                 for (pyname, xoname, k), (klab, dlab, dkw, dv), (vlab, v) in zip(fields, combo, choice):
-                    if dv is None:
-                        continue
+                    if dv is None or k in ("hy", "hs"):
+                        continue  # nested objects are always written out
                     res.oracles["elision"] += 1
                     equal = veq(v, dv)
                     present = pyname in d
@@ -230,8 +239,8 @@ def run_family(first, tier, res):
     import xobjects as xo
 
     k, lab, kw, dv = field_variants()[first]
-    if dv is None:
-        return
+    if dv is None or k in ("hy", "hs"):
+        return  # families are about scalar / string / array defaults
     m = menu()[k]
     other = dict(m["values"])["diff"]
     third = m["values"][0][1]
